@@ -209,7 +209,7 @@ def parse_extra(ex):
 def term_of(c, p, e):
     res = dv.coq_list([ls_common.zpairs(p['results'].get(t, [])) for t in range(2)])
     return '(SC %d %d%%nat %s %s %s %s %s %d %d %s %d %s %d %d)' % (
-        e['K'], BUDGET, dv.coq_list([op_coq(o) for o in c['progs'][0]]), dv.coq_list([op_coq(o) for o in c['progs'][1]]),
+        e['K'], ls_common.fuel_of(BUDGET, p['status']), dv.coq_list([op_coq(o) for o in c['progs'][0]]), dv.coq_list([op_coq(o) for o in c['progs'][1]]),
         dv.coq_list([str(x) for x in c['sched']]), ls_common.zpairs(p['steps']), res, e['head'], e['tail'],
         ls_common.zpairs(e['slots']), e['errs'], dv.zlit(e['dtor_live']), e['dtor_errs'], p['status'])
 
